@@ -571,6 +571,17 @@ def _eval_material(case):
                         _v(vs, "c19/material-expansion-factor/%s" % name, "%s between %.6g and %.6g C: linearExpansionFactor %r, density reduction %r" % (name, prev, Tc, f1, f2), dict(cc, T=Tc))
                         break
                 prev = Tc
+        # the closed range includes its end points: evaluate them exactly, in the declared unit
+        if meth not in raised:
+            for kw, val in matlib.stated_endpoints(name, meth):
+                st["evaluations"] += 1
+                o, v = _call(inst, meth, **{kw: val})
+                if o == "raises":
+                    _v(vs, "c19/material-%s-raises-at-range-end/%s" % (lab, name), "%s.%s(%s=%r) (an end point of its stated range) raised %r" % (name, meth, kw, val, v), dict(cc, end=[kw, val]))
+                    break
+                if v is None or isinstance(v, complex) or not _finite(v) or (knd in positive_for and not float(v) > 0.0):
+                    _v(vs, "c19/material-%s-not-finite-positive-at-range-end/%s" % (lab, name), "%s.%s(%s=%r) (an end point of its stated range) = %r" % (name, meth, kw, val, v), dict(cc, end=[kw, val]))
+                    break
     st["distinct_values"] = len(vals)
     return vs, st
 
